@@ -107,6 +107,14 @@ def ambiguous_value(b):
     return False
 
 
+def nameless_annotation(b):
+    """parentheses holding only white space are read as an annotation whose name is the empty string (and
+    reported as "unknown annotation: "); the grammar has no annotation without a name, so such a block is
+    outside the quantifier of the write/parse clause (the writer's `()` is rejected by the tokenizer)"""
+    parts = [b['annotations']] + [p[1] for p in b['params']] + [t[1] for t in b['tags']]
+    return any(a[0] == '' for anns in parts for a in anns)
+
+
 def check_text_fixpoint(ctx, impl, cnt, text, origin):
     """for arbitrary repo-provided comment text: no exception, and the writer round trip"""
     b, ind, recs, exc = ac.parse_real(impl, text)
@@ -119,7 +127,7 @@ def check_text_fixpoint(ctx, impl, cnt, text, origin):
     bad = [r for r in recs if ac.kind_of(r['text']) not in ac.VALIDATE_KINDS]
     if bad:
         return 'outside'        # input not in the current grammar (the parser said so)
-    if ambiguous_value(b):
+    if ambiguous_value(b) or nameless_annotation(b):
         return 'outside'
     blk = impl.parser.parse_comment_block(text, 'f.c', 1)
     impl.take()
